@@ -207,6 +207,9 @@ REWRITE = {
     "C14": [("PARTIAL: the per-interface composition bounds (e.g. 3T+2+k shard files for the shuffled concurrent reader) are derived by hand and checked by runs",
              "COMPOSED for the synchronous interface (c14_sync_interface_readahead): the shuffle buffer over the lazy chain of shards over any stream of paths satisfies (opened-1)*m <= yielded+shuffle at every moment (every shard >= m >= 1 examples). "
              "PARTIAL: the composition bounds of the concurrent and async interfaces (e.g. 3T+2+k shard files for the shuffled concurrent reader) are derived by hand and checked by runs")],
+    "C19": [("PARTIAL: whole interfaces are checked on prefixes",
+             "COMPOSED (c19_sync_reader_periodic): the lazy chain of shards over itertools.cycle of the selected paths - the unshuffled repeating synchronous reader - hands over, for every k, example (k mod N) of a single pass. "
+             "PARTIAL: the other interfaces are checked on prefixes")],
     "C15": [("PARTIAL: early-drop liveness, the decoders/pyo3 layer and the epoch loop are validated on the implementation only:",
              "Termination (every pass takes at most 3n+min(T,n)+1 thread steps under every schedule) and early-drop liveness (after a drop in any state whatsoever every worker thread ends, so join returns) are theorems as well. "
              "PARTIAL: the decoders/pyo3 layer and the epoch loop are validated on the implementation only:")],
